@@ -113,6 +113,48 @@ int main(int argc, char **argv)
 		else if IS("copy") { BInt c = bintCopy(a); show(c); }
 		else if IS("todflo") { double d = fiBIntToDFlo((FiBInt) a); printf("%.17g", d); }
 		else if IS("strsz") { String s = bintToString(a); printf("%d", (int) (bintStringSize(a) >= (int) strlen(s) + 1)); }
+		else if IS("rpn") {
+			/* rpn: a small stack program over the rest of the line.  Results of operations are used as operands of
+			 * further operations and of comparisons WITHOUT a trip through digits, so that the representation an
+			 * operation leaves behind (immediate or allocated, normalised or not) is what the next one sees.
+			 * tokens: x[-]hex literal (bintFrPlacevS), n<dec> (bintNew), s<dec> (bintFrString), + - * q r m g ~ a c
+			 * <N >N (shift), p<N> (fiBIntSIPower), ? (print EQ LT GT of the top two, both orders, keep them),
+			 * . (print top) */
+			BInt st[64]; int sp = 0; char *tok, *save;
+			char *rest = line + 3;
+			for (tok = strtok_r(rest, " \n", &save); tok; tok = strtok_r(NULL, " \n", &save)) {
+				char c0 = tok[0];
+				if (sp >= 60) { printf("!deep"); break; }
+				if (c0 == 'n') st[sp++] = bintNew(strtol(tok + 1, NULL, 10));
+				else if (c0 == 's') st[sp++] = bintFrString(tok + 1);
+				else if (c0 == '<' ) { st[sp-1] = bintShift(st[sp-1], atoi(tok + 1)); }
+				else if (c0 == '>' ) { st[sp-1] = bintShift(st[sp-1], -atoi(tok + 1)); }
+				else if (c0 == 'p' ) { st[sp-1] = (BInt) fiBIntSIPower((FiBInt) st[sp-1], (FiSInt) atoi(tok + 1)); }
+				else if (c0 == '~' ) { st[sp-1] = bintNegate(st[sp-1]); }
+				else if (c0 == 'a' && !tok[1]) { st[sp-1] = bintAbs(st[sp-1]); }
+				else if (c0 == 'c' && !tok[1]) { st[sp-1] = bintCopy(st[sp-1]); }
+				else if (c0 == '.' ) { show(st[sp-1]); printf(" "); }
+				else if (c0 == '?' ) { BInt x = st[sp-2], y = st[sp-1];
+					printf("%d%d%d%d%d%d%d%d ", (int) bintEQ(x, y), (int) bintLT(x, y), (int) bintGT(x, y),
+					       (int) bintEQ(y, x), (int) bintLT(y, x), (int) bintGT(y, x),
+					       (int) fiBIntLE((FiBInt) x, (FiBInt) y), (int) fiBIntNE((FiBInt) x, (FiBInt) y)); }
+				else if (!tok[1] && strchr("+*qrmg", c0) || (c0 == '-' && !tok[1])) {
+					BInt y = st[--sp], x = st[--sp], z = 0, rr;
+					switch (c0) {
+					case '+': z = bintPlus(x, y); break;
+					case '-': z = bintMinus(x, y); break;
+					case '*': z = bintTimes(x, y); break;
+					case 'q': z = bintDivide(&rr, x, y); break;
+					case 'r': bintDivide(&z, x, y); break;
+					case 'm': z = bintMod(x, y); break;
+					case 'g': z = (BInt) fiBIntGcd((FiBInt) x, (FiBInt) y); break;
+					}
+					st[sp++] = z;
+				}
+				else if (c0 == 'x') st[sp++] = parse(tok + 1);
+				else { printf("?tok"); break; }
+			}
+		}
 		else printf("?op");
 		printf("\n");
 		fflush(stdout);
